@@ -3,6 +3,7 @@ package main
 
 import (
 	"bytes"
+	"sort"
 	"crypto/md5"
 	"crypto/sha1"
 	"crypto/sha256"
@@ -149,8 +150,68 @@ func gen(g *hx.Gen) {
 				extra = fmt.Sprintf(" infomut=%d:%s", r.Intn(len(reads)), hx.Hex(r.Bytes(len(info))))
 				g.Stat("info-mutated")
 			}
+			salt := someBytes(r, 80)
+			mutkeys := r.Intn(2)
+			feat := []string{"api-" + api, a.name}
+			limit := 255 * a.size
+			pos := 0
+			for _, k := range reads {
+				if k == 0 {
+					feat = append(feat, "zero-read")
+				}
+				if k > limit-pos {
+					feat = append(feat, "overshoot")
+				} else {
+					pos += k
+					if k > 0 && k%a.size == 0 {
+						feat = append(feat, "whole-block-read")
+					}
+				}
+			}
+			if pos == limit {
+				feat = append(feat, "exhausted")
+			}
+			if pos > 254*a.size {
+				feat = append(feat, "last-block")
+			}
+			if reuse == 1 {
+				feat = append(feat, "buf-reused")
+			}
+			if extra != "" {
+				feat = append(feat, "info-mutated")
+			}
+			if mutkeys == 1 {
+				feat = append(feat, "keys-scribbled")
+			}
+			if len(info) == 0 {
+				feat = append(feat, "empty-info")
+			}
+			if len(salt) == 0 {
+				feat = append(feat, "empty-salt")
+			}
+			if len(secret) == 0 {
+				feat = append(feat, "empty-secret")
+			}
+			if len(secret) > 64 || len(salt) > 64 {
+				feat = append(feat, "key-over-block")
+			}
+			seen := map[string]bool{}
+			var fl []string
+			for _, f := range feat {
+				if !seen[f] {
+					seen[f] = true
+					fl = append(fl, f)
+				}
+			}
+			sort.Strings(fl)
+			for x := range fl {
+				g.Stat("feat." + fl[x])
+				for y := x + 1; y < len(fl); y++ {
+					g.Stat("pair." + fl[x] + "+" + fl[y])
+				}
+			}
 			g.Emit("hk api=%s hash=%s secret=%s salt=%s info=%s reads=%s wipe=%s reuse=%d mutkeys=%d%s", api, a.name, hx.Hex(secret),
-				hx.Hex(someBytes(r, 80)), hx.Hex(info), hx.JoinInts(reads), hx.JoinStrs(wipes), reuse, r.Intn(2), extra)
+				hx.Hex(salt), hx.Hex(info), hx.JoinInts(reads), hx.JoinStrs(wipes), reuse, mutkeys, extra)
 		case k < 6:
 			g.Stat("extract")
 			g.Emit("ex hash=%s secret=%s salt=%s", a.name, hx.Hex(someBytes(r, 200)), hx.Hex(someBytes(r, 200)))
